@@ -78,6 +78,10 @@ type pipeline struct {
 
 	// gate, if set, is called inside the handler (pipeline limiting).
 	gate func(remote net.Addr, req *dns.Msg)
+
+	// observe, if set, is called inside the handler with the request's
+	// context (what the transport tells the handler about the request).
+	observe func(ctx context.Context, rw dnsserver.ResponseWriter, req *dns.Msg)
 }
 
 func hashQ(q dns.Question) uint32 {
@@ -209,6 +213,9 @@ func (p *pipeline) ServeDNS(ctx context.Context, rw dnsserver.ResponseWriter, re
 
 	if p.gate != nil {
 		p.gate(rw.RemoteAddr(), req)
+	}
+	if p.observe != nil {
+		p.observe(ctx, rw, req)
 	}
 
 	q := req.Question[0]
